@@ -679,3 +679,76 @@ package op
 //@   ensures id-token: err == nil && tokenExchangeRequest.GetRequestedTokenType() == oidc.IDTokenType
 //@        ==> result0.AccessToken == callres("op.CreateIDToken", 0) && result0.TokenType == "N_A" && callarg("op.CreateIDToken", 2) == tokenExchangeRequest
 //@   ensures scopes: err == nil ==> result0.Scopes == tokenExchangeRequest.GetScopes()
+
+// ---- C16: device authorization grant ----
+
+// Total case table (from the statement); state is what the storage returned for (clientID, deviceCode).
+//@ func op.CheckDeviceAuthorizationState
+//@   requires valid(exchanger)
+//@   ensures approved: err == nil ==> result0 != nil && result0.Done && !result0.Denied
+//@   ensures keyed-by-caller: called("op.DeviceAuthorizationStorage.GetDeviceAuthorizatonState") ==> callarg("op.DeviceAuthorizationStorage.GetDeviceAuthorizatonState", 1) == clientID
+//@        && callarg("op.DeviceAuthorizationStorage.GetDeviceAuthorizatonState", 2) == deviceCode
+//@   ensures approved-only: err == nil ==> callres("op.DeviceAuthorizationStorage.GetDeviceAuthorizatonState", 1) == nil
+//@        && result0 != nil && result0 == callres("op.DeviceAuthorizationStorage.GetDeviceAuthorizatonState", 0) && result0.Done && !result0.Denied
+//@   ensures approved-accepted: called("op.DeviceAuthorizationStorage.GetDeviceAuthorizatonState") && callres("op.DeviceAuthorizationStorage.GetDeviceAuthorizatonState", 1) == nil
+//@        && callres("op.DeviceAuthorizationStorage.GetDeviceAuthorizatonState", 0).Done && !callres("op.DeviceAuthorizationStorage.GetDeviceAuthorizatonState", 0).Denied ==> err == nil
+//@   ensures denied: called("op.DeviceAuthorizationStorage.GetDeviceAuthorizatonState") && callres("op.DeviceAuthorizationStorage.GetDeviceAuthorizatonState", 1) == nil && callres("op.DeviceAuthorizationStorage.GetDeviceAuthorizatonState", 0).Denied
+//@        ==> asErr("*oidc.Error", err) != nil && asErr("*oidc.Error", err).ErrorType == oidc.AccessDenied
+//@   ensures expired-or-pending: called("op.DeviceAuthorizationStorage.GetDeviceAuthorizatonState") && callres("op.DeviceAuthorizationStorage.GetDeviceAuthorizatonState", 1) == nil
+//@        && !callres("op.DeviceAuthorizationStorage.GetDeviceAuthorizatonState", 0).Denied && !callres("op.DeviceAuthorizationStorage.GetDeviceAuthorizatonState", 0).Done
+//@        ==> asErr("*oidc.Error", err) != nil && asErr("*oidc.Error", err).ErrorType ==
+//@            ite(now(1) > callres("op.DeviceAuthorizationStorage.GetDeviceAuthorizatonState", 0).Expires, oidc.ExpiredToken, oidc.AuthorizationPending)
+//@   ensures storage-timeout-slow-down: called("op.DeviceAuthorizationStorage.GetDeviceAuthorizatonState") && isErr(callres("op.DeviceAuthorizationStorage.GetDeviceAuthorizatonState", 1), context.DeadlineExceeded)
+//@        ==> asErr("*oidc.Error", err) != nil && asErr("*oidc.Error", err).ErrorType == oidc.SlowDown
+//@   ensures storage-error-denied: called("op.DeviceAuthorizationStorage.GetDeviceAuthorizatonState") && callres("op.DeviceAuthorizationStorage.GetDeviceAuthorizatonState", 1) != nil
+//@        && !isErr(callres("op.DeviceAuthorizationStorage.GetDeviceAuthorizatonState", 1), context.DeadlineExceeded)
+//@        ==> asErr("*oidc.Error", err) != nil && asErr("*oidc.Error", err).ErrorType == oidc.AccessDenied
+
+// Legacy router: tokens only for the state fetched under the identified caller's client id, and a
+// confidential client must have authenticated.
+//@ func op.deviceAccessToken
+//@   requires !Resp_written[w] && valid(r) && valid(exchanger) && valid(w)
+//@   modifies Resp_written[w], Resp_status[w], Resp_location[w], Resp_body[w]
+//@   unframed
+//@   ensures answered-or-error: result == nil ==> Resp_written[w] && Resp_status[w] == 200
+//@   ensures no-answer-on-error: result != nil ==> !Resp_written[w]
+//@   ensures approved-state-of-caller: result == nil ==> callres("op.CheckDeviceAuthorizationState", 1) == nil
+//@        && callarg("op.CheckDeviceAuthorizationState", 1) == callres("op.ClientIDFromRequest", 0)
+//@        && callarg("op.CheckDeviceAuthorizationState", 2) == callres("op.ParseDeviceAccessTokenRequest", 0).DeviceCode
+//@   ensures confidential-authenticated: result == nil ==> callres("op.ClientIDFromRequest", 1) == (callres("op.OPStorage.GetClientByClientID", 0).ApplicationType() == ApplicationTypeWeb)
+//@   ensures tokens-for-that-state: result == nil ==> callres("op.CreateDeviceTokenResponse", 1) == nil && Resp_body[w] == callres("op.CreateDeviceTokenResponse", 0)
+//@        && as(callarg("op.CreateDeviceTokenResponse", 1), "*DeviceAuthorizationState") == callres("op.CheckDeviceAuthorizationState", 0)
+
+// Server-interface router: the state is fetched under the authenticated client's id.
+//@ func op.LegacyServer.DeviceToken
+//@   requires valid(s) && valid(s.provider) && valid(r) && valid(r.Data) && valid(r.Client)
+//@   ensures fail-closed: err != nil ==> result0 == nil
+//@   ensures supported: err == nil ==> old(s.provider.GrantTypeDeviceCodeSupported())
+//@   ensures approved-state-of-caller: err == nil ==> callres("op.CheckDeviceAuthorizationState", 1) == nil
+//@        && callarg("op.CheckDeviceAuthorizationState", 1) == r.Client.GetID() && callarg("op.CheckDeviceAuthorizationState", 2) == r.Data.DeviceCode
+//@   ensures tokens-for-that-state: err == nil ==> callres("op.CreateDeviceTokenResponse", 1) == nil
+//@        && as(callarg("op.CreateDeviceTokenResponse", 1), "*DeviceAuthorizationState") == callres("op.CheckDeviceAuthorizationState", 0)
+//@        && callarg("op.CreateDeviceTokenResponse", 3) == r.Client
+
+// The device authorization response describes exactly what was stored for the requesting client.
+//@ func op.createDeviceAuthorization
+//@   requires valid(req) && valid(o)
+//@   modifies wallclock
+//@   ensures fail-closed: err != nil ==> result0 == nil
+//@   ensures stored: err == nil ==> result0 != nil && callres("op.DeviceAuthorizationStorage.StoreDeviceAuthorization", 0) == nil
+//@        && callarg("op.DeviceAuthorizationStorage.StoreDeviceAuthorization", 1) == clientID
+//@        && callarg("op.DeviceAuthorizationStorage.StoreDeviceAuthorization", 2) == result0.DeviceCode
+//@        && callarg("op.DeviceAuthorizationStorage.StoreDeviceAuthorization", 3) == result0.UserCode
+//@        && callarg("op.DeviceAuthorizationStorage.StoreDeviceAuthorization", 5) == req.Scopes
+//@   ensures expiry: err == nil ==> callarg("op.DeviceAuthorizationStorage.StoreDeviceAuthorization", 4) == now(1) + o.DeviceAuthorization().Lifetime
+//@        && result0.ExpiresIn == o.DeviceAuthorization().Lifetime / 1000000000 && result0.Interval == o.DeviceAuthorization().PollInterval / 1000000000
+//@   ensures codes-from-generators: err == nil ==> result0.DeviceCode == callres("op.NewDeviceCode", 0) && result0.UserCode == callres("op.NewUserCode", 0) && callres("op.NewUserCode", 1) == nil
+
+//@ func op.DeviceAuthorization
+//@   requires !Resp_written[w] && valid(r) && valid(o) && valid(w)
+//@   modifies Resp_written[w], Resp_status[w], Resp_location[w], Resp_body[w]
+//@   unframed
+//@   ensures answered-or-error: result == nil ==> Resp_written[w] && Resp_status[w] == 200 && Resp_body[w] == callres("op.createDeviceAuthorization", 0)
+//@   ensures no-answer-on-error: result != nil ==> !Resp_written[w]
+//@   ensures for-the-known-client: result == nil ==> callres("op.ParseDeviceCodeRequest", 1) == nil && callres("op.createDeviceAuthorization", 1) == nil
+//@        && callarg("op.createDeviceAuthorization", 2) == callres("op.ParseDeviceCodeRequest", 0).ClientID
